@@ -596,6 +596,51 @@ def exitstack_cancel(L):
                         cls = "exits-skipped-after-cancel" if len(res["stack"][0]) < len(res["nested"][0]) else "outcome-differs-from-nested-with"
                         out.append((f"C18/ExitStack/{cls}", {"engine": "scenario", "cfg": {"exits": behs, "block_raises": blockraises, "cancel_at": j},
                                                              "expected": res["nested"], "observed": res["stack"]}))
+    # the cancellation arrives while a context is still being *entered* (its __aenter__ is suspended): it was
+    # never entered, so its exit must not run -- the contexts entered before it are left with that exception
+    for nbefore in (0, 1, 2):
+        res = {}
+        for which in ("stack", "nested"):
+            acct = Accounting()
+            log = []
+            cancel = Cancelled("cancel")
+
+            def mk(e, entering=False, acct=acct, log=log, cancel=cancel):
+                class CM:
+                    async def __aenter__(self):
+                        if entering:
+                            await Suspend(acct, ("enter", e))
+                        return e
+
+                    async def __aexit__(self, et, ev, tb):
+                        log.append((e, "never-entered" if entering else ("cancel" if ev is cancel else "other")))
+                        return False
+                return CM()
+
+            cms = [mk(e + 1) for e in range(nbefore)] + [mk(nbefore + 1, entering=True)]
+
+            async def body(cms=cms, which=which):
+                if which == "stack":
+                    async with L.ExitStack() as st:
+                        for cm in cms:
+                            await st.enter_context(cm)
+                else:
+                    async def nest(rest):
+                        if not rest:
+                            return
+                        async with rest[0]:
+                            await nest(rest[1:])
+                    await nest(cms)
+
+            t = Task(body(), acct)
+            r = t.step()
+            if r[0] == "token":
+                r = t.throw(cancel)
+            res[which] = (log, r[0], r[0] == "raised" and r[1] is cancel)
+        runs += 1
+        if res["stack"] != res["nested"]:
+            out.append(("C18/ExitStack/exit-of-a-context-cancelled-while-entering",
+                        {"engine": "scenario", "cfg": {"entered_before": nbefore}, "expected": res["nested"], "observed": res["stack"]}))
     return out, runs
 
 
